@@ -29,7 +29,7 @@ for p in $PROPS; do
     out=$(cd /verif && timeout 900 ./check $p quick 2>&1); code=$?
     echo "CHECK $p quick exit=$code $(echo "$out" | grep -E 'violation kinds|MACHINERY' | head -2 | tr '\n' ' ' | cut -c1-300)"
     echo "$out" | grep -m2 "what:" | cut -c1-300
-    if [ $first = 1 ] && [ $code = 0 ]; then
+    if [ $first = 1 ] && [ $code = 0 ] && [ -z "${TRY_NO_THOROUGH:-}" ]; then
         out=$(cd /verif && timeout 3000 ./check $p thorough 2>&1); code=$?
         echo "CHECK $p thorough exit=$code $(echo "$out" | grep -E 'violation kinds|MACHINERY' | head -2 | tr '\n' ' ' | cut -c1-300)"
         echo "$out" | grep -m2 "what:" | cut -c1-300
